@@ -173,6 +173,14 @@ class StmtMixin:
                 for fname, val in zip(list(SCHEMA[p.cls]), v.items):
                     p.fields[fname] = z3.Store(p.fields[fname], j, val.t)
                 return
+            if isinstance(p, RecListP) and isinstance(v, VElem) and v.cls == p.cls:
+                # an element of a record list stored at another index: the fields are copied (value semantics; sound as long as
+                # neither alias is written afterwards through the other - the contract states list elements are distinct on entry)
+                src_p = self.get_payload(v.lst)
+                vals = {f: z3.Select(src_p.fields[f], v.idx) for f in SCHEMA[p.cls]}
+                for fname, t in vals.items():
+                    p.fields[fname] = z3.Store(p.fields[fname], j, t)
+                return
             raise Unsupported(f"store into {type(p).__name__}")
         return self.store_index_special(base, idx, v, node, fr)
 
@@ -199,6 +207,18 @@ class StmtMixin:
         raise Unsupported(f"subscript store on {base!r}")
 
     def s_Delete(self, st, fr):
+        # del lst[a:] on a record list: the length becomes min(len, clamp(a))
+        if len(st.targets) == 1 and isinstance(st.targets[0], ast.Subscript) and isinstance(st.targets[0].slice, ast.Slice):
+            sl = st.targets[0].slice
+            base = self.eval(st.targets[0].value, fr)
+            if isinstance(base, VList) and sl.upper is None and sl.step is None and sl.lower is not None:
+                p = self.payload.get(base.ref) or self.mut_payload(base.ref)
+                if isinstance(p, (RecListP, IntListP)):
+                    a = self.as_int(self.eval(sl.lower, fr))
+                    n = self.list_len(p)
+                    a = z3.If(a < 0, z3.If(a + n < 0, z3.IntVal(0), a + n), a)
+                    p.len = z3.simplify(z3.If(a < n, a, n))
+                    return
         raise Unsupported("del")
 
     def s_Assert(self, st, fr):
